@@ -101,12 +101,21 @@ impl Property for StoreProp {
                 }
                 for _ in 0..rng.range(3, 14 * scale) {
                     match rng.below(20) {
-                        0..=10 => ops.push(Op::S(gen_put(rng, 2, 3))),
+                        0..=10 => {
+                            let mut p = gen_put(rng, 2, 3);
+                            // the edges of the timestamp range occur too
+                            if rng.chance(1, 10) {
+                                if let SOp::Put { ts, .. } = &mut p {
+                                    *ts = *rng.pick(&[0u64, 1]);
+                                }
+                            }
+                            ops.push(Op::S(p))
+                        }
                         11..=13 => {
                             let k = rng.range(1, 3);
                             ops.push(Op::S(SOp::HasNews {
                                 n: rng.below(2),
-                                heads: (0..k).map(|_| (rng.below(3), *rng.pick(&[4u64, 5, 9, 10, 11, 12]))).collect(),
+                                heads: (0..k).map(|_| (rng.below(3), *rng.pick(&[0u64, 0, 1, 4, 5, 9, 10, 11, 12, u64::MAX]))).collect(),
                             }))
                         }
                         14 => {
